@@ -235,15 +235,70 @@ def keyText (keys : List Nat) : List Nat := keys.map (fun k => if k = 13 then 32
 /-- the terminal state after a key sequence -/
 def final (t : Term) (ks : List Nat) : Term := ks.foldl (fun t k => (step t k).1) t
 
+/-- the printable keys are none of the keys `handleKey` treats specially -/
+theorem printable_ne {k : Nat} (hp : isPrintable k = true) :
+    k ≠ keyBackspace ∧ k ≠ keyAltLeft ∧ k ≠ keyAltRight ∧ k ≠ keyLeft ∧ k ≠ keyRight ∧ k ≠ keyHome ∧
+    k ≠ keyEnd ∧ k ≠ keyUp ∧ k ≠ keyDown ∧ k ≠ keyDeleteWord ∧ k ≠ keyDeleteLine ∧ k ≠ keyCtrlD ∧
+    k ≠ keyCtrlU ∧ k ≠ keyClearScreen := by
+  simp only [isPrintable, Bool.and_eq_true, decide_eq_true_eq, Bool.not_eq_true', Bool.and_eq_false_iff,
+    decide_eq_false_iff_not, bne_iff_ne, ne_eq, ge_iff_le] at hp
+  simp only [keyBackspace, keyAltLeft, keyAltRight, keyLeft, keyRight, keyHome, keyEnd, keyUp, keyDown,
+    keyDeleteWord, keyDeleteLine, keyCtrlD, keyCtrlU, keyClearScreen]
+  omega
+
+theorem handleKey_enter (t : Term) : handleKey t 13 =
+    if (t.line.foldl feed {}).piece.reverse.all isSpace then
+      ({ t with line := [], pos := 0 }, some (t.line.foldl feed {}).done.reverse)
+    else (addKeyToLine t 32, none) := by
+  simp [handleKey, keyEnter, keyBackspace, keyAltLeft, keyAltRight, keyLeft, keyRight, keyHome, keyEnd,
+    keyUp, keyDown, keyDeleteWord, keyDeleteLine, keyCtrlD, keyCtrlU, keyClearScreen, splitStatements]
+
+theorem handleKey_print (t : Term) {k : Nat} (hp : isPrintable k = true) (hk : k ≠ 13) :
+    handleKey t k = (addKeyToLine t k, none) := by
+  obtain ⟨h1, h2, h3, h4, h5, h6, h7, h8, h9, h10, h11, h12, h13, h14⟩ := printable_ne hp
+  cases hpa : t.pasteActive <;>
+    simp [handleKey, keyEnter, hpa, hp, hk, h1, h2, h3, h4, h5, h6, h7, h8, h9, h10, h11, h12, h13, h14]
+
+theorem addHistory_line (t : Term) (s : List (List Nat)) : (addHistory t s).line = t.line := by
+  unfold addHistory
+  induction s generalizing t with
+  | nil => rfl
+  | cons a s ih => rw [List.foldl_cons, ih]
+
+theorem addHistory_pos (t : Term) (s : List (List Nat)) : (addHistory t s).pos = t.pos := by
+  unfold addHistory
+  induction s generalizing t with
+  | nil => rfl
+  | cons a s ih => rw [List.foldl_cons, ih]
+
+theorem addHistory_paste (t : Term) (s : List (List Nat)) : (addHistory t s).pasteActive = t.pasteActive := by
+  unfold addHistory
+  induction s generalizing t with
+  | nil => rfl
+  | cons a s ih => rw [List.foldl_cons, ih]
+
 theorem step_enter (t : Term) : step t 13 =
     if (t.line.foldl feed {}).piece.reverse.all isSpace then
-      ({ line := [] }, some (t.line.foldl feed {}).done.reverse)
-    else ({ line := t.line ++ [32] }, none) := by
-  simp [step, keyEnter, splitStatements]
+      (addHistory { t with line := [], pos := 0 } (t.line.foldl feed {}).done.reverse,
+        some (t.line.foldl feed {}).done.reverse)
+    else (addKeyToLine t 32, none) := by
+  rw [step, handleKey_enter]
+  by_cases hb : (t.line.foldl feed {}).piece.reverse.all isSpace = true
+  · simp only [if_pos hb]
+  · simp only [if_neg hb]
 
 theorem step_print (t : Term) {k : Nat} (hp : isPrintable k = true) (hk : k ≠ 13) :
-    step t k = ({ line := t.line ++ [k] }, none) := by
-  simp [step, keyEnter, hp, hk]
+    step t k = (addKeyToLine t k, none) := by
+  rw [step, handleKey_print t hp hk]
+
+/-- the cursor is at the end of the line -/
+def AtEnd (t : Term) : Prop := t.pos = t.line.length
+
+/-- with the cursor at the end of the line `addKeyToLine` appends, and the cursor stays at the end -/
+theorem addKey_atEnd {t : Term} (h : AtEnd t) (k : Nat) :
+    (addKeyToLine t k).line = t.line ++ [k] ∧ AtEnd (addKeyToLine t k) := by
+  unfold AtEnd at h ⊢
+  simp [addKeyToLine, h]
 
 /-- a generic invariant principle for the scan -/
 theorem foldl_feed_inv (P : S → Prop) (hstep : ∀ s r, P s → P (feed s r)) :
@@ -367,13 +422,15 @@ theorem run_cons_none {t t' : Term} {k : Nat} (ks : List Nat)
 theorem final_cons (t : Term) (k : Nat) (ks : List Nat) :
     final t (k :: ks) = final (step t k).1 ks := rfl
 
-/-- the invariant is preserved along any run of valid keys, of any length -/
+/-- the invariant is preserved along any run of valid keys, of any length; the cursor stays at
+the end of the line -/
 theorem inv_run : ∀ (ks : List Nat) (t : Term) (G : S) (D : List (List Nat)),
-    Inv t.line G D →
+    Inv t.line G D → AtEnd t →
     (∀ k ∈ ks, k = 13 ∨ (isPrintable k = true ∧ k ≠ 13)) →
-    Inv (final t ks).line ((keyText ks).foldl feed G) ((run t ks).flatten.reverse ++ D)
-  | [], t, G, D, h, _ => by simpa [final, keyText, run] using h
-  | k :: rest, t, G, D, h, hv => by
+    Inv (final t ks).line ((keyText ks).foldl feed G) ((run t ks).flatten.reverse ++ D) ∧
+      AtEnd (final t ks)
+  | [], t, G, D, h, he, _ => by simpa [final, keyText, run] using ⟨h, he⟩
+  | k :: rest, t, G, D, h, he, hv => by
     have hvr : ∀ k ∈ rest, k = 13 ∨ (isPrintable k = true ∧ k ≠ 13) :=
       fun x hx => hv x (List.mem_cons_of_mem _ hx)
     rcases hv k List.mem_cons_self with hk | ⟨hp, hk⟩
@@ -385,19 +442,25 @@ theorem inv_run : ∀ (ks : List Nat) (t : Term) (G : S) (D : List (List Nat)),
       · rw [if_pos hb] at hstep
         have hb' : Blank (t.line.foldl feed {}).piece :=
           ((blank_iff_all _).mp hb).of_reverse
-        have ih := inv_run rest { line := [] } (feed G 32) _ (inv_submit h hb') hvr
+        have ih := inv_run rest (addHistory { t with line := [], pos := 0 } (t.line.foldl feed {}).done.reverse)
+          (feed G 32) _ (by rw [addHistory_line]; exact inv_submit h hb')
+          (by unfold AtEnd; rw [addHistory_line, addHistory_pos]; rfl) hvr
         rw [run_cons_some rest hstep, hstep]
         simpa only [List.flatten_cons, List.reverse_append, List.reverse_reverse,
           List.append_assoc] using ih
       · rw [if_neg hb] at hstep
-        have ih := inv_run rest { line := t.line ++ [32] } (feed G 32) D (inv_feed h 32) hvr
+        have hk32 := addKey_atEnd he 32
+        have ih := inv_run rest (addKeyToLine t 32) (feed G 32) D (by rw [hk32.1]; exact inv_feed h 32)
+          hk32.2 hvr
         rw [run_cons_none rest hstep, hstep]
         exact ih
     · have hstep := step_print t hp hk
       have htext : keyText (k :: rest) = k :: keyText rest := by
         simp only [keyText, List.map_cons, if_neg hk]
       rw [htext, List.foldl_cons, final_cons]
-      have ih := inv_run rest { line := t.line ++ [k] } (feed G k) D (inv_feed h k) hvr
+      have hkk := addKey_atEnd he k
+      have ih := inv_run rest (addKeyToLine t k) (feed G k) D (by rw [hkk.1]; exact inv_feed h k)
+        hkk.2 hvr
       rw [run_cons_none rest hstep, hstep]
       exact ih
 
@@ -419,8 +482,8 @@ theorem run_eq_split_snoc (ks : List Nat)
     (hrest : Blank (splitStatements (keyText (ks ++ [13]))).2) :
     (run {} (ks ++ [13])).flatten = (splitStatements (keyText (ks ++ [13]))).1 ∧
       (final {} (ks ++ [13])).line = [] := by
-  have hinv := inv_run ks {} {} [] inv_init
-    (fun k hk => hvalid k (List.mem_append.mpr (Or.inl hk)))
+  have hinv := (inv_run ks {} {} [] inv_init rfl
+    (fun k hk => hvalid k (List.mem_append.mpr (Or.inl hk)))).1
   have htext : keyText (ks ++ [13]) = keyText ks ++ [32] := by simp [keyText]
   rw [htext] at hrest ⊢
   simp only [splitStatements, List.foldl_append, List.foldl_cons, List.foldl_nil] at hrest ⊢
@@ -449,7 +512,7 @@ theorem run_eq_split_snoc (ks : List Nat)
     simp [run]
   · simp only [final, List.foldl_append, List.foldl_cons, List.foldl_nil]
     show (step (final {} ks) 13).1.line = []
-    rw [hstep]
+    rw [hstep, addHistory_line]
 
 /-- (C) For a key sequence of printable keys and Enters of any length that ends with Enter,
 and whose text (each Enter read as one space) has only blanks after its last top-level ';'
